@@ -166,13 +166,13 @@ Lemma err_of_neg_len : err_of "negative tag length: " = eNegLen. Proof. reflexiv
 
 Lemma tags_inner : forall f σ s M K C Kd,
   (List.length s < f)%nat -> (List.length s < M)%nat -> (0 <= d_j σ)%Z -> (d_j σ < d_length σ)%Z ->
-  d_made σ = d_length σ -> d_err σ = false ->
+  d_err σ = false ->
   (forall σ' r, (List.length r <= List.length s)%nat -> outer_eq σ σ' -> run_flat (K σ') r = run_flat Kd r) ->
   run_flat (exec (@Crash unit) (@NoFuel unit) f (body_of tags_ifor ++ [again tags_ifor]) σ K K C) s
   = run_flat (_ <- (_ <- id_elem (d_lenvalues σ) 0 ;;
                     rep M (id_elem (d_lenvalues σ)) (Z.to_N (d_j σ) + 1) (Z.to_N (d_length σ))) ;; Kd) s.
 Proof.
-  induction f as [|f IH]; intros σ s M K C Kd Hf HM Hj Hc Hm He HK; [lia|].
+  induction f as [|f IH]; intros σ s M K C Kd Hf HM Hj Hc He HK; [lia|].
   cbn [tags_ifor tags_ofor c08_Registry_ReadTagsFrom nth body_of again app] in IH |- *.
   cbn [exec].
   rewrite run_eff_varint.
@@ -185,9 +185,8 @@ Proof.
   destruct ((z <? 0) || (d_lenvalues σ <=? z))%Z eqn:B.
   - cbn [d_err dset_err]. rewrite err_of_bad_id. reflexivity.
   - apply orb_false_iff in B. destruct B as [B1 B2].
-    assert (G1: ((0 <=? d_j σ) && (d_j σ <? d_made σ))%Z = true) by (rewrite Hm; lia).
     assert (G2: ((0 <=? z) && (z <? d_lenvalues σ))%Z = true) by lia.
-    rewrite G1, G2. cbn [guarded run_flat].
+    rewrite G2. cbn [guarded run_flat].
     cbn [d_err dset_id dset_j d_j d_length d_id d_lenvalues d_made]. try rewrite He.
     destruct M as [|M']; [lia|]. cbn [rep].
     destruct (Z.ltb_spec (d_j σ + 1) (d_length σ)) as [L|L].
@@ -235,7 +234,7 @@ Proof.
   cbn [d_err dset_length dset_id dset_j d_j d_length dset_made d_made]. rewrite He.
   destruct (Z.ltb_spec l 0) as [NEG|NN].
   { rewrite err_of_neg_len. reflexivity. }
-  destruct (Z.leb_spec 0 l) as [_|]; [|lia]. cbn [guarded].
+  destruct (Z.leb_spec 0 (Z.min l 1024)) as [_|]; [|lia]. cbn [guarded].
   cbn [d_err dset_length dset_id dset_j d_j d_length dset_made d_made].
   match goal with |- run_flat (if ?c then exec _ _ _ _ ?s0 ?k _ _ else _) _ = _ => set (Kin := k) in *; set (σ0 := s0) in * end.
   assert (KIN: forall σ' r, (List.length r + 2 <= List.length s)%nat -> d_i σ' = d_i σ -> d_count σ' = d_count σ ->
